@@ -114,6 +114,8 @@ def check_form(rec, case, desc, rng, nproblems=2):
             R = refasm.reference(desc, problem)
         except (sem.Unsupported, jets.JetOrderError) as ex:
             rec.count('reference_unsupported:' + str(ex)[:40]); rec.case(c, nontrivial=False); continue
+        if not (np.all(np.isfinite(R['A'])) and np.all(np.isfinite(R['Aabs']))):
+            rec.count('reference_not_finite'); rec.case(c, nontrivial=False); continue       # integrand outside the domain of a function: nothing to compare
         if R['second']: rec.count('kind:second_derivatives')
         kv, args, bd = refasm.to_pyiga_inputs(problem, desc)
         try:
@@ -190,6 +192,8 @@ def check_form(rec, case, desc, rng, nproblems=2):
                 rec.violation(dict(sig, oracle='update() of an updatable field works', stage='update', exc=type(ex).__name__), c2, {'msg': str(ex)[:300], 'where': _where(ex)})
                 rec.case(c, nontrivial=True); continue
             R2 = refasm.reference(desc, problem2)
+            if not (np.all(np.isfinite(R2['A'])) and np.all(np.isfinite(R2['Aabs']))):
+                rec.count('reference_not_finite'); rec.case(c, nontrivial=True); continue
             A2 = A2.reshape(R2['A'].shape)
             tol2 = 1e-10 * (R2['Aabs'] + (R2['Aabs'].max() if R2['Aabs'].size else 0.0)) + 1e-300
             with np.errstate(all='ignore'):
